@@ -97,6 +97,39 @@ def skewed(rnd, n):
     return bytes(rnd.choices(syms, weights=w, k=n))
 
 
+def tiny_alphabet_drift(rnd, n, seg=100000):
+    """2..6 distinct byte values, never the same value twice in a row (so no byte run reaches the run-length coder and the
+    block alphabet stays tiny), with the symbol skew redrawn every `seg` bytes: consecutive blocks have the same small
+    alphabet but need differently shaped prefix codes."""
+    k = rnd.choice([2, 3, 3, 4, 4, 5, 5, 6])
+    syms = rnd.sample(range(256), k)
+    out = bytearray()
+    prev = None
+    while len(out) < n:
+        shape = rnd.choice(['flat', 'geo', 'one', 'fib'])
+        if shape == 'flat':
+            w = [1] * k
+        elif shape == 'geo':
+            b = rnd.choice([2, 3, 5, 9])
+            w = [b ** i for i in range(k)]
+        elif shape == 'one':
+            w = [1] * k
+            w[rnd.randrange(k)] = rnd.choice([20, 200])
+        else:
+            w = [1, 1]
+            while len(w) < k:
+                w.append(w[-1] + w[-2])
+        rnd.shuffle(w)
+        m = min(seg, n - len(out))
+        draw = rnd.choices(range(k), weights=w, k=m)
+        for x in draw:
+            if x == prev:
+                x = (x + 1) % k if k > 1 else x
+            out.append(syms[x])
+            prev = x
+    return bytes(out)
+
+
 def boundary(rnd, level, ultra=False):
     """Input whose interesting run lands on block capacity -2..+2."""
     cap = level * 100000
